@@ -216,6 +216,7 @@ class World:
             from quara.loss_function.weighted_probability_based_squared_error import WeightedProbabilityBasedSquaredErrorOption as O
         else:
             from quara.loss_function.weighted_relative_entropy import WeightedRelativeEntropyOption as O
+        mode = mode.split("+")[0]          # "+eqonly" selects the algorithm option, not the weights
         if mode == "custom":
             if self.family.startswith("re"):
                 return O(mode_weight="custom", weights=[float(w[0, 0]) for w in self.custom[tomo]])
@@ -232,8 +233,11 @@ class World:
         est = LossMinimizationEstimator()
         loss = self.loss if loss is None else loss
         algo = self.algo if algo is None else algo
+        # the estimation mode also names the algorithm option: "+eqonly" switches the inequality constraint off, so a
+        # re-used algorithm object must re-derive its projection when only the option changes
         opt = ProjectedGradientDescentBacktrackingOption(mode_stopping_criterion_gradient_descent="sum_absolute_difference_variable",
-                                                         num_history_stopping_criterion_gradient_descent=1, eps=1e-9)
+                                                         num_history_stopping_criterion_gradient_descent=1, eps=1e-9,
+                                                         on_algo_ineq_constraint=not mode.endswith("+eqonly"))
         data = [(n, f.copy()) for (n, f) in self.data[(tomo, d)]]
         res = est.calc_estimate(self.tomo[tomo], data, loss, self._loss_option(tomo, mode), algo, opt)
         return np.asarray(res.estimated_var)
